@@ -176,8 +176,8 @@ impl Monitor for C04 {
         N_DIRECTED
             + match t {
                 Tier::Tiny => 16,
-                Tier::Quick => 8_000,
-                Tier::Thorough => 120_000,
+                Tier::Quick => 256000,
+                Tier::Thorough => 2560000,
             }
     }
     fn rule(&self) -> &'static str {
